@@ -10,6 +10,7 @@ import (
 	"regexp"
 	"runtime"
 	"runtime/debug"
+	"runtime/pprof"
 	"sort"
 	"strconv"
 	"strings"
@@ -298,9 +299,14 @@ func runEntry(l *loaded, entry string, workers int, tier string, solverBin strin
 	}
 	sh := res.Sh
 	sh.maxPaths = l.h.MaxPaths[tier]
-	if tl := l.h.TimeLimit[tier]; tl > 0 {
-		sh.deadline = time.Now().Add(time.Duration(tl) * time.Second)
+	tl := l.h.TimeLimit[tier]
+	if tl == 0 { // default per-entry budget: a check must terminate; hitting it is reported as inconclusive
+		tl = 900
+		if tier == "thorough" {
+			tl = 7200
+		}
 	}
+	sh.deadline = time.Now().Add(time.Duration(tl) * time.Second)
 	sh.maxScript = 300
 	if tier == "thorough" {
 		sh.maxScript = 3000
@@ -313,8 +319,9 @@ func runEntry(l *loaded, entry string, workers int, tier string, solverBin strin
 		wg.Add(1)
 		go func() {
 			defer wg.Done()
-			s := NewSolver(solverBin, qTimeoutMs, "-in")
+			s := NewSolver(solverBin, qTimeoutMs, "-in", "-memory:6000")
 			defer s.Close()
+			s.deadline = sh.deadline
 			ex := &Explorer{sh: sh, s: s, tb: NewTB(), entry: entry}
 			in := NewInterp(l.cfg, ex)
 			for {
@@ -347,6 +354,9 @@ func runEntry(l *loaded, entry string, workers int, tier string, solverBin strin
 			}
 			for k, v := range in.redirUsed {
 				sh.Redirects[k] += v
+			}
+			for _, st := range s.Stale {
+				sh.Notes["solver printed an unexpected line: "+st]++
 			}
 			sh.SolverQ += s.Queries
 			sh.SolverSat += s.Sat
@@ -485,7 +495,14 @@ func main() {
 	cross := flag.Bool("cross", true, "cross-check assertion queries with other solvers in thorough tier")
 	verbose := flag.Bool("v", false, "verbose")
 	flag.Var(&extraOverlay, "overlay", "repo-relative-path=replacement-file (repeatable; mutation testing)")
+	prof := flag.String("cpuprofile", "", "write cpu profile")
 	flag.Parse()
+	if *prof != "" {
+		f, _ := os.Create(*prof)
+		pprof.StartCPUProfile(f)
+		defer pprof.StopCPUProfile()
+	}
+	debug.SetGCPercent(800)
 	os.Setenv("PATH", "/opt/veriftools/go1.27.0/bin:"+os.Getenv("PATH"))
 	if *qto == 0 {
 		*qto = 60000
@@ -650,6 +667,7 @@ func main() {
 		ev.write(*evid, exit)
 	}
 	fmt.Printf("RESULT property=%s tier=%s exit=%d wall=%.1fs obligations=%d discharged=%d paths=%d violations=%d inconclusive=%d\n", *id, *tier, exit, time.Since(t0).Seconds(), ev.Obligations, ev.Discharged, ev.Paths, ev.Violations, len(ev.Inconclusive))
+	pprof.StopCPUProfile()
 	os.Exit(exit)
 }
 
